@@ -1,9 +1,11 @@
 //! tvv — property-based / fuzzing verification harness for tantivy (see /verif/DESIGN.md).
 pub mod crash;
+pub mod dump;
 pub mod engine;
 pub mod hist;
 pub mod known;
 pub mod props;
+pub mod rich;
 pub mod simdir;
 pub mod util;
 
